@@ -8,7 +8,7 @@ import (
 	"github.com/gopher-fleece/gleece/v2/generator/swagen/swagen31"
 )
 
-var vhSchemeNames = []string{"s0", "s1", "s2", "zz"} // "zz" is never declared
+var vhSchemeNames = []string{"s0", "s1", "s2", "zz", "S0"} // "zz" and the case variant "S0" are never declared
 
 type vhSec struct {
 	scheme string
@@ -55,7 +55,7 @@ func vhSameStrings(a, b []string) bool {
 func vhC04(maxCtrlSec, maxRouteSec int) {
 	// configuration: a symbolic subset of the universe is declared; optional default security
 	cfg := &definitions.GleeceConfig{}
-	declared := []bool{symxBool("decl.s0"), symxBool("decl.s1"), true, false}
+	declared := []bool{symxBool("decl.s0"), symxBool("decl.s1"), true, false, false}
 	for i, name := range vhSchemeNames[:3] {
 		if declared[i] {
 			cfg.OpenAPIGeneratorConfig.SecuritySchemes = append(cfg.OpenAPIGeneratorConfig.SecuritySchemes, definitions.SecuritySchemeConfig{
